@@ -129,7 +129,7 @@ fn mk_scenario(line: &mut usize, name: String, tags: Vec<String>, nsteps: usize)
 fn rand_feature(r: &mut Rng, fi: usize) -> gherkin::Feature {
     let mut line = 1;
     let names = ["alpha", "beta", "gamma one", "delta-2", "Alpha beta", "omega"];
-    let mut sc = |r: &mut Rng, line: &mut usize| {
+    let sc = |r: &mut Rng, line: &mut usize| {
         let name = format!("{} {}", r.pick(&names), r.below(4));
         mk_scenario(line, name, rand_tags(r), r.below(3))
     };
@@ -923,7 +923,7 @@ pub fn c18(seed: u64, idx: u64, t: &mut Tally) {
             _ => (format!("retry({n}).after({d}ms)"), Some(n), Some(d)),
         }
     };
-    let mut level = |r: &mut Rng| -> (Vec<String>, Option<(Option<usize>, Option<u64>)>) {
+    let level = |r: &mut Rng| -> (Vec<String>, Option<(Option<usize>, Option<u64>)>) {
         let mut tags = rand_tags(r);
         let mut rt = None;
         if r.chance(1, 3) {
